@@ -219,7 +219,7 @@ for every union of patterns of `InClassB`, with no condition on separators or le
 `match_iff_select_partial` needs for the code as found (`descPrefix`, no `/step//`) is gone, i.e. findings 1 and 2
 are repaired.  With all three repairs (`Variant.backtracking`) this is the **full statement of C09 on the whole
 modelled grammar** (`backtracking_class_total`; what remains outside is what the model does not contain: `id()`/`key()`
-steps, namespaces, and a second `position()`-calling predicate on one step, see `Step.valid`). -/
+steps and namespaces). -/
 theorem match_iff_select_backtracking_partial (hb : v.backtrack = true) (d : Doc) (hwf : d.WF = true) (P : Pattern)
     (hP : ∀ p ∈ P, InClassB v p) (n : Nat) (hn : n < d.size) :
     getMatchScore v d P n ≠ .none ↔ Spec.matchesPattern d P n = true := by
@@ -258,19 +258,40 @@ theorem backtracking_class_total (p : Path) (hv : p.valid = true) : InClassB Var
     · intro hp
       simp only at hp
       subst hp
-      simp only [Path.valid, Bool.and_eq_true, beq_iff_eq] at hv
-      exact hv.2
+      simp only [Path.valid, beq_iff_eq] at hv
+      exact hv
 
 /-- **C09 at full strength for the repaired matcher**: with the three proposed repairs
 (`Variant.backtracking`) a node matches a pattern exactly when the pattern, as an expression, selects it from some
-ancestor-or-self — for *every* pattern of the modelled grammar (`Path.valid`: well-formed lead, at most one
-`position()`-calling predicate per step), every well-formed document, every node.  No `_partial`: the only
+ancestor-or-self — for *every* pattern of the modelled grammar (`Path.valid`: a relative path starts with a step),
+every well-formed document, every node.  No `_partial`: the only
 restrictions left are those of the model's grammar (`id()`/`key()` steps, namespaces). -/
 theorem match_iff_select_repaired (d : Doc) (hwf : d.WF = true) (P : Pattern) (hP : ∀ p ∈ P, p.valid = true)
     (n : Nat) (hn : n < d.size) :
     getMatchScore Variant.backtracking d P n ≠ .none ↔ Spec.matchesPattern d P n = true :=
   match_iff_select_backtracking_partial (v := Variant.backtracking) rfl d hwf P
     (fun p hp => backtracking_class_total p (hP p hp)) n hn
+
+/-- **id()/key()-leading patterns** (`IdKeyPattern (('/' | '//') RelativePathPattern)?`, backtracking matcher): with
+`S` the node-set the call evaluates to in the document, the node matches exactly when it is reached from a node of
+`S` by the remaining steps — which is what the pattern selects as an expression, from any context.  Any steps of
+`Step.lastOK`, any separators.  (The eOP_FUNCTION / eMATCH_ANY_ANCESTOR_WITH_FUNCTION_CALL cases of `stepPattern`;
+tied to the code with `id()` patterns on documents with ID attributes.) -/
+theorem idkey_match_iff_select (hb : v.backtrack = true) (d : Doc) (hwf : d.WF = true) (p : FnPath)
+    (hs : ∀ e ∈ p.steps, e.2.lastOK v) (n : Nat) (hn : n < d.size) :
+    getMatchScoreFn v d p n ≠ .none ↔ Spec.matchesFn d p n = true := by
+  unfold getMatchScoreFn
+  simp only [hb, if_true]
+  exact lppB_fn_iff d hwf p hs n hn
+
+/-- non-vacuity of `idkey_match_iff_select`: `id('v')//a/b` with `S = {1}` on `<a id="v"><b><a><b/></a></b></a>` -/
+example :
+    let d : Doc := { nodes := [⟨.root, "", 0⟩, ⟨.elem, "a", 0⟩, ⟨.attr, "id", 1⟩, ⟨.elem, "b", 1⟩, ⟨.elem, "a", 3⟩,
+                               ⟨.elem, "b", 4⟩] }
+    let p : FnPath := ⟨"id('v')", [1], [(.desc, nm "a"), (.child, nm "b")]⟩
+    d.WF = true ∧ (List.range d.size).map (fun n => (getMatchScoreFn Variant.backtracking d p n).toNat) = [0, 0, 0, 0, 0, 4] ∧
+      (List.range d.size).map (fun n => Spec.matchesFn d p n) = [false, false, false, false, false, true] := by
+  decide
 
 /-- non-vacuity of `match_implies_select_partial`: `z/a//b` (outside `InClass`) on `<z><a><b/></a></z>` matches `b`. -/
 example :
